@@ -1246,6 +1246,85 @@ fn tos_bytes(kind: Kind) -> (u64, u64, Vec<Violation>) {
     (cases, marked, viol)
 }
 
+/// A peer on a link-local IPv6 address: the source address a receiver reports must carry the zone
+/// (scope id) the kernel reported, or replies to it have no interface to leave by. Uses the first
+/// fe80::/10 address of /proc/net/if_inet6; returns None if the host has none.
+/// Some((cases compared, violations)).
+fn link_local() -> Option<(u64, Vec<Violation>)> {
+    let txt = std::fs::read_to_string("/proc/net/if_inet6").ok()?;
+    let (ip, scope) = txt.lines().find_map(|l| {
+        let f: Vec<&str> = l.split_whitespace().collect();
+        if f.len() < 6 || !f[0].starts_with("fe8") || f[0].len() != 32 {
+            return None;
+        }
+        let mut b = [0u8; 16];
+        for i in 0..16 {
+            b[i] = u8::from_str_radix(&f[0][2 * i..2 * i + 2], 16).ok()?;
+        }
+        Some((Ipv6Addr::from(b), u32::from_str_radix(f[1], 16).ok()?))
+    })?;
+    let mut viol = vec![];
+    let mut cases = 0u64;
+    let bind_ll = SocketAddr::V6(SocketAddrV6::new(ip, 0, 0, scope));
+    let v6any: SocketAddr = (Ipv6Addr::UNSPECIFIED, 0).into();
+    for recv_wildcard in [true, false] {
+        let Ok(send) = sock(Domain::IPV6, false, bind_ll) else { continue };
+        let Ok(recv) = sock(Domain::IPV6, false, if recv_wildcard { v6any } else { bind_ll }) else { continue };
+        let (Ok(ss), Ok(rs)) = (UdpSocketState::new((&send).into()), UdpSocketState::new((&recv).into())) else { continue };
+        let _ = send.set_nonblocking(true);
+        let _ = recv.set_nonblocking(true);
+        let sport = send.local_addr().ok()?.as_socket()?.port();
+        let rport = recv.local_addr().ok()?.as_socket()?.port();
+        let dst = SocketAddr::V6(SocketAddrV6::new(ip, rport, 0, scope));
+        let want_addr = SocketAddr::V6(SocketAddrV6::new(ip, sport, 0, scope));
+        let mut arena = vec![0u8; SLOT * BATCH_SIZE];
+        for (len, seg, ecn) in [(100usize, None, None), (1200, None, Some(EcnCodepoint::Ect0)), (900, Some(300usize), Some(EcnCodepoint::Ce)), (1, None, Some(EcnCodepoint::Ect1))] {
+            let payload: Vec<u8> = (0..len).map(|i| pat(len as u32 + 77, 0, i)).collect();
+            let t = Transmit { destination: dst, ecn, contents: &payload, segment_size: seg, src_ip: None };
+            if ss.try_send((&send).into(), &t).is_err() {
+                continue;
+            }
+            let deadline = Instant::now() + Duration::from_millis(RECV_WAIT_MS);
+            let mut got = 0usize;
+            let mut metas: Vec<RecvMeta> = vec![];
+            while got < len && Instant::now() < deadline {
+                let mut meta = [RecvMeta::default(); BATCH_SIZE];
+                let res = {
+                    let mut bufs: Vec<IoSliceMut<'_>> = arena.chunks_mut(SLOT).take(BATCH_SIZE).map(|c| IoSliceMut::new(&mut c[..SLOT - 1])).collect();
+                    catch_unwind(AssertUnwindSafe(|| rs.recv((&recv).into(), &mut bufs, &mut meta)))
+                };
+                match res {
+                    Ok(Ok(n)) => {
+                        for m in &meta[..n] {
+                            got += m.len;
+                            metas.push(*m);
+                        }
+                    }
+                    Ok(Err(e)) if e.kind() == io::ErrorKind::WouldBlock => {
+                        poll_in(&recv, 10);
+                    }
+                    _ => break,
+                }
+            }
+            if metas.is_empty() {
+                continue; // silence is not judged
+            }
+            cases += 1;
+            for m in &metas {
+                if m.addr != want_addr || m.ecn != ecn {
+                    viol.push(Violation {
+                        signature: "link-local-source-address".into(),
+                        what: format!("a {len}-byte transmit from {want_addr} (link-local, zone {scope}) to a receiver bound to {}: reported source {} ecn {:?}, expected {want_addr} ecn {ecn:?}", if recv_wildcard { "[::]" } else { "the same link-local address" }, m.addr, m.ecn),
+                        replay: json!({"check":"c19","kind":"link_local"}),
+                    });
+                    return Some((cases, viol));
+                }
+            }
+        }
+    }
+    Some((cases, viol))
+}
+
 fn replay(file: &std::path::Path) -> ! {
     let body = std::fs::read_to_string(file).unwrap_or_else(|e| machinery(&format!("cannot read {file:?}: {e}")));
     let v: Value = serde_json::from_str(&body).unwrap_or_else(|e| machinery(&format!("bad json: {e}")));
@@ -1264,6 +1343,11 @@ fn replay(file: &std::path::Path) -> ! {
             println!("VIOLATION {}: {}", v.signature, v.what);
         }
         std::process::exit(if viol.is_empty() { 0 } else { 1 });
+    }
+    if r["kind"] == "link_local" {
+        let out = link_local();
+        println!("{:?}", out.as_ref().map(|(n, v)| (n, v.iter().map(|x| x.what.clone()).collect::<Vec<_>>())));
+        std::process::exit(out.map_or(0, |(_, v)| !v.is_empty() as i32));
     }
     if r["kind"] == "tos" || r["kind"] == "mixed" {
         // the whole (small) part is repeated for the pair
@@ -1317,7 +1401,7 @@ fn main() {
         For each socket pair {v4->v4, v6->v6, v4->dual-stack v6, dual-stack v6->v4-mapped}: transmit shape x ECN {None,Ect0,Ect1,Ce} \
         x src_ip {None, explicit loopback form(s)} x receive buffer size {exact total, +1, 65535} x receive iovecs {1, BATCH_SIZE} \
         x (multi-datagram transmits only) receiver UDP_GRO {on as quinn-udp sets it, switched off by the harness}. \
-        Plus: every value 0..=255 of the TOS / traffic-class byte sent by a plain socket (DSCP set by a peer or router) x receiver UDP_GRO {on, off}: reported ecn = low two bits. \
+        Plus: every value 0..=255 of the TOS / traffic-class byte sent by a plain socket (DSCP set by a peer or router) x receiver UDP_GRO {on, off}: reported ecn = low two bits; a peer on a link-local IPv6 address (if the host has one): the reported source address carries the zone id. \
         Shapes: GSO segment_size {1,2,100,1200,1452} x every count 1..=hi (hi = min(max_gso_segments, first count whose total exceeds the family max)) \
         x last segment {full, 1 byte, half}; every other segment_size 1..=1472 x count (quick {2,3,hi-1,hi}, thorough 1..=hi) x last, with two receive shapes (quick: GRO-off only with BATCH_SIZE iovecs); \
         segment_size == len single datagrams; unsegmented: every length 1..=N (quick 1500, thorough 2048) with all receive shapes, plus \
@@ -1474,6 +1558,17 @@ fn main() {
             machinery("vacuity guard: no datagram with a non-zero DSCP and a non-zero ECN field was received");
         }
         rep.part("tos_byte_values", Value::Object(tb));
+    }
+    // a peer on a link-local address (zone id in the reported source address)
+    match link_local() {
+        None => rep.part("link_local_peer", json!({"skipped": "no fe80::/10 address in /proc/net/if_inet6"})),
+        Some((cases, viol)) => {
+            rep.evaluations += cases;
+            for v in viol {
+                rep.violation(v);
+            }
+            rep.part("link_local_peer", json!({"transmits_compared": cases}));
+        }
     }
 
     // the quinn endpoint's own share of the property: coalesced receive batches are split back into
